@@ -30,7 +30,7 @@ func c35pick() c35rune {
 	case 3:
 		return c35rune{"€", 1, false}
 	case 4:
-		return c35rune{"\U0001F600", 2, false}
+		return c35rune{"\U00010000", 2, false} // the first astral code point: boundary of the 2-unit class
 	}
 	return c35rune{"　", 1, true}
 }
@@ -63,7 +63,7 @@ func (t *c35text) piece(final bool) string {
 			case 1:
 				r = c35rune{" ", 1, true}
 			default:
-				r = c35rune{"\U0001F600", 2, false}
+				r = c35rune{"\U00010000", 2, false}
 			}
 		}
 		t.runes = append(t.runes, r)
